@@ -246,12 +246,14 @@ CLAIMED['C08'] = ('other',
 # Rules added while working through the seeded changes (DESIGN.md 10.7): appended to the level text of the claim they extend.
 ADDENDA = {
     'C01': ' Registry reads: a key demanded from the properties of a registry entry must be present in every entry that can reach the read '
-           '(entries without any property count unless a truth test of the properties dominates the read).',
+           '(entries without any property count unless a truth test of the properties dominates the read). An is_valid() that does not call '
+           'validate() at all is reported (a second copy of the rules).',
     'C03': ' For the modules whose validate() and compact() are siblings over a private splitter, every normalisation compact() applies to a part '
            'must also be applied by validate().',
     'C04': ' Further structural rules: every path of format() returns a string; validate() must not rewrite the compact form once more before '
-           'checking it (format() starts from compact(x)); an attribute looked up on a dispatched sub-module must exist in every candidate.',
-    'C05': ' With a fixed length gate, no slice the generator takes of the whole number may reach into the compared position; a checksum '
+           'checking it, nor apply a case mapping on top of compact() that compact() does not do (format() starts from compact(x)); an attribute '
+           'looked up on a dispatched sub-module must exist in every candidate.',
+    'C05': ' With a fixed length gate, no slice the generator takes of the whole number (nor int() of all of it) may reach into the compared position; a checksum '
            'comparison guarded by `part of the number not in <constant list>` is an exemption list and is reported; a check position compared with '
            'several generators, or tested for membership in a generated string that is not built from single-character pieces, is reported.',
     'C06': ' Generators are evaluated with checksum() standing for each state and may read the payload only through checksum(); the Damm step '
@@ -270,7 +272,7 @@ ADDENDA = {
     'C12': ' A lookup of a field in a constant (length, low, high) table by string comparison must cut the field to the width of the bounds; '
            'getter thresholds must be thresholds of validate().',
     'C13': ' Module-level defaultdicts that functions subscript (inserting lookups), function-level caches, one-shot module iterators and clock '
-           'reads in default arguments are reported.',
+           'reads in default arguments are reported; a memo must not hand out a mutable object it stored.',
     'C14': ' clean() is interpreted over a small stream domain (helpers followed, generator expressions and joins composed): the result must be '
            'conversion inside the catch-all, one pass through table.get(x, x), deletion last; the table builder may be any one-expression '
            'function that evaluates to the name-list map; module-level digit tables of other modules are checked against the Unicode decimal values; '
@@ -281,7 +283,8 @@ ADDENDA = {
            'never used as a character set (strip family); compact() deletes only the parentheses and clean() leaves the 82 GS1 value characters alone.',
     'C17': ' Paths of validate() that return without any check are limited to two documented modules.',
     'C18': ' Availability: the C01 obligations and the result kind / attribute totality of every format() the page calls are re-decided; '
-           'util.get_number_modules() must yield every module that has validate().',
+           'util.get_number_modules() must yield every module that has validate(); the scan of the formats is guarded only by the presence of '
+           'the parameter; the two responses are read path by path.',
 }
 for _pid, _txt in ADDENDA.items():
     _c = CLAIMED[_pid]
